@@ -7,108 +7,112 @@
    Go keys are byte strings whose bit length is 8 * (number of bytes); the
    helper operations below are Key.AppendBit / Key.Split+AppendBit
    (advanceKeyToRight) / Key.Compare on that representation. *)
-From Verif Require Import Lib.Base Mkvs.Trie MkvsProof.Model MkvsProof.Remote.
+From Verif Require Import Lib.Base Mkvs.Trie Mkvs.Key Mkvs.Overlay Mkvs.Iter MkvsProof.Model MkvsProof.Remote.
 
-Definition kv := (bytes * bytes)%type.
+(* The iterator machine is the one of Mkvs/Iter.v (do_next / node_step /
+   it_next, proved to refine al_seek in Mkvs/IterLift.v), re-stated over
+   PARTIAL trees: a hash-only pointer makes the walk stop with [U3] (the Go
+   tree would fetch / fail there), and every dereferenced pointer position is
+   recorded (ProofBuilder.Include, iterator.go:236-239). *)
+Record patom := mkP { p_state : vstate; p_pid : list dir; p_node : ptree; p_depth : N; p_path : bytes }.
 
-Inductive vstate := VBefore | VAt | VAtLeft | VAfter.          (* iterator.go:113-120 *)
+Inductive f3 :=
+| F3 (e : bytes * bytes) (stk : list patom)   (* found: it.key/it.value and the new part of it.pos *)
+| N3                                          (* nothing here *)
+| U3.                                         (* met a pointer that only carries a hash *)
 
-(* pathAtom (iterator.go:122-127): pointer position, the node, bitDepth, path bits, state *)
-Definition atom := (list dir * tree * nat * path * vstate)%type.
+Definition res3 := (f3 * list (list dir))%type.
 
-Definition cmp_ge (a b : bytes) : bool :=
-  match bytes_cmp a b with Lt => false | _ => true end.
-Definition cmp_lt (a b : bytes) : bool :=
-  match bytes_cmp a b with Lt => true | _ => false end.
+Definition push3 (r : res3) (a : patom) : res3 :=
+  match r with (F3 e stk, R) => (F3 e (stk ++ [a]), R) | x => x end.
+Definition orelse3 (r : res3) (k : unit -> res3) : res3 :=
+  match r with (N3, R) => let '(f, R') := k tt in (f, R ++ R') | x => x end.
 
-(* key.AppendBit(n, b) for a key with no bits set at or beyond position n *)
-Definition append_bit (k : bytes) (n : nat) (b : bool) : bytes :=
-  pack (firstn n (bits_of k ++ repeat false n) ++ [b]).
-(* advanceKeyToRight (iterator.go:262-265): Split at n, then AppendBit(n, true) *)
-Definition advance (k : bytes) (n : nat) : bytes :=
-  pack (firstn n (bits_of k) ++ [true]).
+(* Mkvs.Iter.node_step with three-valued results *)
+Definition node_step3 (try_lf try_l try_r : bytes -> res3) (nd : N) (npath key : bytes)
+           (st : vstate) : res3 :=
+  let take_first := (0 <? nd) && (nd <=? k_bitlen key) && cmp_lt key npath in
+  let key_not_longer := k_bitlen key <=? nd in
+  let from_at (key : bytes) : res3 :=
+    let key := if key_not_longer then k_appendbit key nd false else key in
+    if negb (k_getbit key nd) || take_first
+    then orelse3 (try_l key) (fun _ => try_r (adv_key nd key))
+    else try_r key in
+  match st with
+  | VBefore =>
+      if key_not_longer || take_first
+      then orelse3 (try_lf key) (fun _ => from_at key)
+      else from_at key
+  | VAt => from_at key
+  | VAtLeft => try_r (adv_key nd key)
+  | VAfter => (N3, [])
+  end.
 
-Definition res := (option kv * list atom * list (list dir))%type.
+Fixpoint pdo (p : ptree) (pid : list dir) (d : N) (path key : bytes) (st : vstate) : res3 :=
+  match p with
+  | PNil => (N3, [])                                  (* nil pointer: no Include *)
+  | PHash _ => (U3, [])
+  | PLeaf k v => ((if cmp_lt k key then N3 else F3 (k, v) []), [pid])
+  | PNode bl lb lf l r =>
+      let nd := d + bl in
+      let npath := k_merge path d lb bl in
+      let me := fun s => mkP s pid p d path in
+      let '(f, R) :=
+        node_step3
+          (fun key => match lf with
+                      | PLeaf k0 v0 =>
+                          ((if cmp_lt k0 key then N3 else F3 (k0, v0) [me VAt]), [pid ++ [DF]])
+                      | PNil => (N3, [])
+                      | _ => (U3, [])
+                      end)
+          (fun key => push3 (pdo l (pid ++ [DL]) nd npath key VBefore) (me VAtLeft))
+          (fun key => push3 (pdo r (pid ++ [DR]) nd npath key VBefore) (me VAfter))
+          nd npath key st in
+      (f, pid :: R)
+  end.
 
-Fixpoint donext (t : tree) (pid : list dir) (d : nat) (q : path) (key : bytes) (st : vstate) : res :=
+Definition pseek (p : ptree) (key : bytes) : res3 := pdo p [] 0 [] key VBefore.
+
+Fixpoint pit_next (key : bytes) (pos : list patom) : res3 :=
+  match pos with
+  | [] => (N3, [])
+  | a :: rem =>
+      match pdo (p_node a) (p_pid a) (p_depth a) (p_path a) key (p_state a) with
+      | (F3 e stk, R) => (F3 e (stk ++ rem), R)
+      | (N3, R) => let '(f, R') := pit_next key rem in (f, R ++ R')
+      | (U3, R) => (U3, R)
+      end
+  end.
+
+(* Seek then up to [n] Next while valid (SyncIterate, iterator.go:41-47; also
+   what a reader of a proof does): the items, or None if a hash was met *)
+Fixpoint pcollect (n : nat) (cur : res3) : option (list (bytes * bytes)) * list (list dir) :=
+  match cur with
+  | (U3, R) => (None, R)
+  | (N3, R) => (Some [], R)
+  | (F3 e pos, R) =>
+      match n with
+      | O => (Some [e], R)
+      | S m => let '(items, R') := pcollect m (pit_next (fst e) pos) in
+               (option_map (cons e) items, R ++ R')
+      end
+  end.
+
+Definition piter (p : ptree) (key : bytes) (n : nat) : option (list (bytes * bytes)) :=
+  fst (pcollect n (pseek p key)).
+
+(* the whole tree as a partial tree *)
+Fixpoint full (t : tree) : ptree :=
   match t with
-  | Nil => (None, [], [])                                            (* :238, no Include for a nil pointer *)
-  | Leaf k0 v0 =>                                                    (* :318 *)
-      ((if cmp_ge k0 key then Some (k0, v0) else None), [], [pid])
-  | Node lbl lf l r =>
-      let n := (d + length lbl)%nat in                               (* :243 newBitDepth *)
-      let q' := q ++ lbl in                                          (* :244 newPath *)
-      let me := fun ps : vstate => (pid, t, d, q, ps) in
-      let take_first := ((0 <? n)%nat && (n <=? 8 * length key)%nat && cmp_lt key (pack q'))%bool in   (* :269 *)
-      let not_longer := (8 * length key <=? n)%nat in                (* :270 *)
-      (* tryNext on the LeafNode pointer (:275) *)
-      let leaf_phase : option res * list (list dir) :=
-        match st with
-        | VBefore =>
-            if (not_longer || take_first)%bool then
-              match lf with
-              | Some (k0, v0) =>
-                  if cmp_ge k0 key then (Some (Some (k0, v0), [me VAt], [pid; pid ++ [DF]]), [])
-                  else (None, [pid; pid ++ [DF]])
-              | None => (None, [pid])
-              end
-            else (None, [pid])
-        | _ => (None, [pid])
-        end in
-      match leaf_phase with
-      | (Some rr, _) => rr
-      | (None, inc0) =>
-          let right_phase (key2 : bytes) (inc1 : list (list dir)) : res :=
-            let '(f, pos, i) := donext r (pid ++ [DR]) n q' key2 VBefore in      (* :296 / :302 *)
-            match f with
-            | Some _ => (f, pos ++ [me VAfter], inc1 ++ i)
-            | None => (None, [], inc1 ++ i)
-            end in
-          match st with
-          | VBefore | VAt =>
-              let key1 := if not_longer then append_bit key n false else key in  (* :283 *)
-              if (negb (bit (bits_of key1) n) || take_first)%bool then           (* :287 *)
-                let '(f, pos, i) := donext l (pid ++ [DL]) n q' key1 VBefore in
-                match f with
-                | Some _ => (f, pos ++ [me VAtLeft], inc0 ++ i)
-                | None => right_phase (advance key1 n) (inc0 ++ i)               (* :291 *)
-                end
-              else right_phase key1 inc0
-          | VAtLeft => right_phase (advance key n) inc0                          (* :300 *)
-          | VAfter => (None, [], inc0)
-          end
-      end
-  end.
-
-(* Next (iterator.go:208-248): resume at the innermost atom, pop on failure *)
-Fixpoint next_loop (stack : list atom) (key : bytes) : res :=
-  match stack with
-  | [] => (None, [], [])
-  | (pid, t, d, q, st) :: rem =>
-      let '(f, pos, i) := donext t pid d q key st in
-      match f with
-      | Some _ => (f, pos ++ rem, i)
-      | None => let '(f', pos', i') := next_loop rem key in (f', pos', i ++ i')
-      end
-  end.
-
-Definition seek (t : tree) (key : bytes) : res := donext t [] 0 [] key VBefore.
-
-(* SyncIterate: Seek, then up to [n] Next while valid (iterator.go:41-47) *)
-Fixpoint iter_n (n : nat) (cur : option kv) (stack : list atom) (inc : list (list dir)) : list (list dir) :=
-  match n with
-  | O => inc
-  | S m =>
-      match cur with
-      | None => inc
-      | Some (k, _) => let '(f, pos, i) := next_loop stack k in iter_n m f pos (inc ++ i)
-      end
+  | Nil => PNil
+  | Leaf k v => PLeaf k v
+  | Node lbl lf l r => PNode (N.of_nat (length lbl)) (pack lbl) (olf_ptree lf) (full l) (full r)
   end.
 
 Definition iter_included (t : tree) (key : bytes) (prefetch : nat) : list (list dir) :=
-  let '(f, pos, i) := seek t key in iter_n prefetch f pos i.
+  snd (pcollect prefetch (pseek (full t) key)).
 
-(* SyncGetPrefixes (prefetch.go:93-113) *)
+(* SyncGetPrefixes (prefetch.go:93-113) / a reader of its proof *)
 Fixpoint has_prefix (p k : bytes) : bool :=
   match p, k with
   | [], _ => true
@@ -116,32 +120,38 @@ Fixpoint has_prefix (p k : bytes) : bool :=
   | _ :: _, [] => false
   end.
 
-Fixpoint pf_inner (fuel : nat) (prefix : bytes) (cur : option kv) (stack : list atom)
-         (total limit : nat) (inc : list (list dir)) : bool * nat * list (list dir) :=
+Fixpoint pf_inner (fuel : nat) (prefix : bytes) (cur : res3) (total limit : nat)
+  : bool * nat * option (list (bytes * bytes)) * list (list dir) :=
   match fuel with
-  | O => (true, total, inc)
+  | O => (true, total, Some [], snd cur)
   | S f =>
       match cur with
-      | None => (false, total, inc)
-      | Some (k, _) =>
-          if (limit <=? total)%nat then (true, total, inc)           (* :100 break prefixLoop *)
-          else if negb (has_prefix prefix k) then (false, total, inc)   (* :103 *)
-          else let '(c', st', i) := next_loop stack k in
-               pf_inner f prefix c' st' (S total) limit (inc ++ i)
+      | (U3, R) => (true, total, None, R)
+      | (N3, R) => (false, total, Some [], R)
+      | (F3 e pos, R) =>
+          if (limit <=? total)%nat then (true, total, Some [], R)             (* :100 break prefixLoop *)
+          else if negb (has_prefix prefix (fst e)) then (false, total, Some [], R)   (* :103 *)
+          else let '(stop, total', items, R') := pf_inner f prefix (pit_next (fst e) pos) (S total) limit in
+               (stop, total', option_map (cons e) items, R ++ R')
       end
   end.
 
-Fixpoint pf_outer (t : tree) (prefixes : list bytes) (total limit : nat) (inc : list (list dir)) : list (list dir) :=
+Fixpoint pf_outer (p : ptree) (prefixes : list bytes) (total limit : nat)
+  : option (list (bytes * bytes)) * list (list dir) :=
   match prefixes with
-  | [] => inc
-  | p :: rest =>
-      let '(f, pos, i) := seek t p in
-      let '(stop, total', inc') := pf_inner (S limit) p f pos total limit (inc ++ i) in
-      if stop then inc' else pf_outer t rest total' limit inc'
+  | [] => (Some [], [])
+  | pre :: rest =>
+      let '(stop, total', items, R) := pf_inner (S limit) pre (pseek p pre) total limit in
+      if stop then (items, R)
+      else let '(items', R') := pf_outer p rest total' limit in
+           (match items, items' with Some a, Some b => Some (a ++ b) | _, _ => None end, R ++ R')
   end.
 
+Definition pprefixes (p : ptree) (prefixes : list bytes) (limit : nat) : option (list (bytes * bytes)) :=
+  fst (pf_outer p prefixes 0 limit).
+
 Definition prefixes_included (t : tree) (prefixes : list bytes) (limit : nat) : list (list dir) :=
-  pf_outer t prefixes 0 limit [].
+  snd (pf_outer (full t) prefixes 0 limit).
 
 (* ---------------- ProofBuilder.build over included positions ---------------- *)
 Definition dir_eqb (a b : dir) : bool :=
